@@ -543,6 +543,30 @@ def main():
             if bad:
                 v["kind"] = "oracle"
                 v["detail"] = ("derived schema / round trip of the generated types: " + " ".join(sorted(set(bad))) + " | " + v["detail"])
+        elif v["case"].startswith("ocfr ") and " ; " in v["rust"]:
+            # C17 on the implementation's outcome, per back-end: the yields end with end of stream;
+            # an I/O error is followed by nothing but end of stream; where the model (whose outcome
+            # passed the oracle) reports a framing error once and then end of stream, so must the code
+            rb = v["rust"].split(" ; ")
+            mb = split_out(v["model"])[0].split(" ; ")
+            why = None
+            for i, r in enumerate(rb):
+                t = r.split()
+                if t[:1] == ["init-err"]:
+                    continue
+                if t[-1:] != ["eof"]:
+                    why = "the reader does not reach end of stream"
+                elif "io" in t and any(x != "eof" for x in t[t.index("io") + 1:]):
+                    why = "an I/O error was not followed by end of stream"
+                elif i < len(mb):
+                    m = mb[i].split()
+                    if m.count("e") == 1 and m[-2:] == ["eof", "eof"] and m[m.index("e") + 2:] == ["eof", "eof"] and t.count("e") > 1:
+                        why = "a framing error is reported more than once (the reader carries on after it)"
+                if why:
+                    break
+            if why:
+                v["kind"] = "oracle"
+                v["detail"] = why + " | " + v["detail"]
         elif v["case"].startswith("reuse "):
             # C14: after every call, successful or not, every pooled buffer is empty
             for i, t in enumerate(rt):
